@@ -78,3 +78,20 @@ pub fn compile(path: &str) {
         println!("tx {}: {:?}", name, r);
     }
 }
+
+/// ad-hoc probe: lower every tx of a source, encode, decode, report
+pub fn roundtrip(path: &str) {
+    let src = std::fs::read_to_string(path).unwrap();
+    let mut ast = crate::pipeline::parse(&src).expect("parses");
+    let _ = crate::pipeline::analyze(&mut ast).expect("analyzes");
+    for tx in &ast.txs {
+        match tx3_lang::lowering::lower(&ast, &tx.name.value) {
+            Err(e) => println!("lower {}: {:?}", tx.name.value, e),
+            Ok(t) => {
+                let (bytes, v) = tx3_tir::encoding::to_bytes(&t);
+                let r = tx3_tir::encoding::from_bytes(&bytes, v);
+                println!("tx {}: {} bytes, decode: {}", tx.name.value, bytes.len(), match r { Ok(_) => "Ok".to_string(), Err(e) => format!("Err({:?})", e) });
+            }
+        }
+    }
+}
